@@ -103,6 +103,9 @@ REG.klass("SchedulerQueue", B + "core.dispatcher.SchedulerQueue", fields={"_queu
 REG.heap_key["ScheduledJob"] = "when"
 REG.klass("EventMultiplexer", B + "core.dispatcher.EventMultiplexer",
           fields={"_prefetched_events": "Dict[EventSource,Opt[Event]]"})
+# the multiplexer scans its sources in subscription order: the dict's insertion order is modelled (ghost rank per key)
+REG.parse("Dict[EventSource,Opt[Event]]")
+REG.ordered.add("Dict[EventSource,Opt[Event]]")
 REG.klass("TaskGroup", B + "core.helpers.TaskGroup", fields={"_tasks": "List[Task]", "_exiting": "Bool"})
 REG.klass("TaskPool", B + "core.helpers.TaskPool", fields={"_max_size": "Int", "_tasks": "Set[Task]", "_done": "List[Task]"})
 REG.klass("EventDispatch", B + "core.dispatcher.EventDispatch", fields={"event": "Event", "handlers": "List[Fun]"})
